@@ -77,6 +77,11 @@ def gen_cases(prop, tier, classic):
     rterms = [docgen.rand_doc(r, r.randint(4, 40), classic=classic) for _ in range(nrand)]
     allcfg = [(s, w, f) for s in (True, False) for w in range(1, 41) for f in (1.0, 0.9, 0.75, 0.5, 0.33, 0.1)]
     groups.append(('random', rterms, None))
+    if not classic:
+        nal = nrand // 2
+        groups.append(('align-nest', [docgen.rand_align_doc(r, r.randint(6, 24)) for _ in range(nal)], None))
+        groups.append(('shared', [docgen.shared_doc(r, (docgen.rand_align_doc if r.random() < 0.5 else docgen.rand_doc)(
+            r, r.randint(3, 16))) for _ in range(nal)], None))
     out = []
     for origin, ts, cfgs in groups:
         if cfgs is None:
@@ -86,6 +91,24 @@ def gen_cases(prop, tier, classic):
         else:
             out.append((origin, ts, cfgs))
     return out
+
+
+CFGS = {}      # repr(term) -> the configurations laid out, in order, on ONE document object
+
+
+def history(t, smart, w, frac):
+    """the configurations run on the same document object before this one"""
+    cfgs = CFGS.get(repr(t), [])
+    cur = (smart, w, frac)
+    return list(cfgs[:cfgs.index(cur)]) if cur in cfgs else []
+
+
+def impl_with_history(t, hist, smart, w, frac, shared):
+    """rebuild the document once, replay the earlier layouts of the same object, lay it out"""
+    real = docgen.to_real(t, {} if shared else None)
+    for (s0, w0, f0) in hist:
+        engine.impl_layout(real, s0, w0, f0)
+    return engine.impl_layout(real, smart, w, frac)
 
 
 def run_diff(groups):
@@ -100,6 +123,8 @@ def run_diff(groups):
 
     def flush(origin, terms, cfgs):
         nonlocal total
+        for t in terms:
+            CFGS.setdefault(repr(t), list(cfgs))
         n, d, impl, meta = engine.diff_engine(terms, cfgs)
         total += n
         for x in d:
@@ -124,11 +149,12 @@ def run_diff(groups):
         meta = []
         for t, cfgs in lst:
             try:
-                real = docgen.to_real(t)
+                real = docgen.to_real(t, {} if origin == 'shared' else None)
                 err = None
             except Exception as e:
                 real, err = None, 'EXC-BUILD ' + type(e).__name__
             sx = docgen.to_sexp(t)
+            CFGS.setdefault(repr(t), list(cfgs))
             for (smart, w, frac) in cfgs:
                 rw = docgen.ribbon_width(w, frac)
                 reqs.append('(layout %d %d %d %s)' % (1 if smart else 0, w, rw, sx))
